@@ -5,6 +5,7 @@ package wmptlib
 
 import (
 	"sort"
+	"sync"
 
 	"github.com/0chain/common/core/encryption"
 	"github.com/0chain/common/core/util/storage"
@@ -68,9 +69,12 @@ type op struct {
 	k, v []byte
 }
 
+// Batch is safe for concurrent Put/Delete, like the Pebble adapter's batch (Commit's
+// worker goroutines write to one batch concurrently).
 type Batch struct {
 	s   *MemStore
 	ops []op
+	mu  sync.Mutex
 }
 
 func (s *MemStore) NewBatch() storage.Batcher { return &Batch{s: s} }
@@ -79,11 +83,15 @@ func (b *Batch) Put(k, v []byte) error {
 	kc := append([]byte{}, k...)
 	vc := make([]byte, len(v))
 	copy(vc, v)
+	b.mu.Lock()
+	defer b.mu.Unlock()
 	b.ops = append(b.ops, op{false, kc, vc})
 	return nil
 }
 
 func (b *Batch) Delete(k []byte) error {
+	b.mu.Lock()
+	defer b.mu.Unlock()
 	b.ops = append(b.ops, op{true, append([]byte{}, k...), nil})
 	return nil
 }
